@@ -102,9 +102,9 @@ Definition ex_u := ex_url "a.example" "/x" "y" "u" "p".
 Definition ex_parent := ex_url "a.example" "/dir/" "" "pu" "pp".
 Definition ex_other := ex_url "other.test" "/z" "" "" "".
 Definition ex_rs : list resp :=
-  [ {| r_status := 307; r_loc := LocUrl ex_other; r_full := false |};
-    {| r_status := 401; r_loc := LocNone; r_full := false |};
-    {| r_status := 200; r_loc := LocNone; r_full := true |} ].
+  [ {| r_status := 307; r_loc := LocUrl ex_other; r_full := false; r_xraise := false |};
+    {| r_status := 401; r_loc := LocNone; r_full := false; r_xraise := false |};
+    {| r_status := 200; r_loc := LocNone; r_full := true; r_xraise := false |} ].
 Definition ex_lines (l : list string) : list N := List.concat (map (fun s => lit s ++ crlf) l).
 
 Open Scope string_scope.
